@@ -47,9 +47,9 @@ def _grid(spec):
     return g, tuple(shape), order, LOC
 
 
-def _close(got, exp):
+def _close(got, exp, floor=1.0):
     exp = np.asarray(exp, float)
-    scale = max(1.0, float(np.max(np.abs(exp))) if exp.size else 1.0)
+    scale = max(floor, float(np.max(np.abs(exp))) if exp.size else floor)
     return np.allclose(np.asarray(got, float), exp, rtol=1e-10, atol=1e-9 * scale)
 
 
@@ -108,6 +108,9 @@ def _check(case, ctx, memloc):
     )
     link.connect()
     inp = link.inputs[0]
+    vscale = 10.0 ** int(case.get("vexp", 0))  # numeric scale of the published numbers; tolerances are relative to it
+    if vscale != 1.0:
+        ctx.event(f"value-scale=1e{case['vexp']}")
     pubs = []  # (time, values in producer units (shape), mask array)
     t_now = hs.T0
     last_arr = None
@@ -125,7 +128,7 @@ def _check(case, ctx, memloc):
         if op[0] == "push":
             form, k = op[2], len(pubs) + 1
             t_new = t_now + timedelta(minutes=op[1]) if pubs else hs.T0
-            base = (np.arange(n, dtype=float).reshape(shape) + 1000.0 * k) if shape else np.array(1000.0 * k)
+            base = ((np.arange(n, dtype=float).reshape(shape) + 1000.0 * k) if shape else np.array(1000.0 * k)) * vscale
             exp_vals, exp_mask = base, (fixed if fixed is not None else np.zeros(shape, bool))
             refuse = None
             if form == "scalar":
@@ -246,7 +249,7 @@ def _check(case, ctx, memloc):
         cands = [(tp, relayout(vals), relayout(msk)) for tp, vals, msk in cands]
         for (_tp, vals, msk) in cands:
             want = hu.convert(vals, pu, cu) if factor_conv else vals
-            if _close(np.ma.getdata(m[0])[~msk], np.asarray(want)[~msk]) and np.array_equal(np.ma.getmaskarray(m[0]), msk):
+            if _close(np.ma.getdata(m[0])[~msk], np.asarray(want)[~msk], vscale) and np.array_equal(np.ma.getmaskarray(m[0]), msk):
                 ok = True
         if not ok:
             tp, vals, msk = cands[0]
@@ -312,7 +315,8 @@ def case_st(draw):
         lens = [len(a) for a in hg.user_axes(grid[1])]
         cgrid = hg.same_geometry_layout(grid[1], draw(st.sampled_from("CF")), draw(st.booleans()), [draw(st.booleans()) and n > 1 for n in lens])
     limit = draw(st.sampled_from([None, None, None, None, 0, 0.5, 1.5, 1.5, 2.5, 3.5]))
-    return {"grid": grid, "pu": pu, "cu": cu, "mask": mask, "chain": chain, "ops": ops, "cgrid": cgrid, "limit": limit}
+    return {"grid": grid, "pu": pu, "cu": cu, "mask": mask, "chain": chain, "ops": ops, "cgrid": cgrid, "limit": limit,
+            "vexp": draw(st.sampled_from([0, 0, 0, -9, 9]))}
 
 
 def parts():
